@@ -16,6 +16,15 @@ C24  Planning mode predicts exactly the files a conversion writes.
  R4  the scheduler passes ``plan_mode`` from the processing strategy and
      ``Transformation.apply`` dispatches to ``plan_*`` iff it is set.
 Not decided: that every pipeline step that writes files is a FileWriteTransformation.
+ R5  planned dependencies accumulate: every writer of
+     ``plan_data['additional_dependencies']`` in loki/transformations extends the
+     entry (``+=``); a plain assignment erases what earlier stages of the
+     pipeline registered for the same item, and the plan omits files the real
+     run writes.
+ R6  the plan is filtered like the real run: in ``Item.create_dependency_items``
+     the planned dependencies are merged into the item list *before* the
+     ``disable`` filter (after real inlining the same calls are in the caller's
+     IR and are filtered by it).
 """
 import ast
 
@@ -176,8 +185,49 @@ def run(ctx):
                            f'conversion are not selected by plan_mode'))
     ctx.floor('R4', 'plan/transform dispatch sites', n, 6)
 
+    # ---- R5
+    ctx.rule('R5', "every store to plan_data['additional_dependencies'] in loki/transformations is an augmented `+=`")
+    ctx.rule('R6', "Item.create_dependency_items reads plan_data['additional_dependencies'] into the item list before the disable filter")
+    n5 = 0
+    for mod in m.all_repo_modules(packages=('loki/transformations', 'loki/batch')):
+        for n in ast.walk(mod.tree):
+            tgt = None
+            if isinstance(n, ast.Assign):
+                tgt = [t for t in n.targets if isinstance(t, ast.Subscript)]
+            elif isinstance(n, ast.AugAssign) and isinstance(n.target, ast.Subscript):
+                tgt = [n.target]
+            for t in tgt or []:
+                if isinstance(t.slice, ast.Constant) and t.slice.value == 'additional_dependencies' and 'plan_data' in ast.unparse(t.value):
+                    n5 += 1
+                    inst = f'{mod.relpath}:{ast.unparse(t.value)}'
+                    fn_ = next((f_.name for f_ in ast.walk(mod.tree) if isinstance(f_, ast.FunctionDef) and f_.lineno <= n.lineno <= (f_.end_lineno or 0)
+                                and not any(isinstance(g_, ast.FunctionDef) and g_ is not f_ and g_.lineno <= n.lineno <= (g_.end_lineno or 0)
+                                            and g_.lineno > f_.lineno for g_ in ast.walk(f_))), '?')
+                    if isinstance(n, ast.AugAssign) and isinstance(n.op, ast.Add):
+                        ctx.judge('R5', f'{fn_}:{ast.unparse(t)} +=')
+                    else:
+                        ctx.violation('R5', f'{fn_}:additional_dependencies:overwritten', f'{mod.relpath}:{n.lineno}',
+                                      f'`{ast.unparse(n)[:90]}` replaces the planned dependencies of the item instead of extending them: what an '
+                                      f'earlier transformation of the pipeline registered is erased and the plan no longer lists the files '
+                                      f'generated for it')
+    ctx.floor('R5', "stores to plan_data['additional_dependencies']", n5, 4)
+    it_ = m.get_class('loki/batch/item.py', 'Item')
+    cdi = it_.function('create_dependency_items')
+    reads = [n.lineno for n in ast.walk(cdi.node) if isinstance(n, ast.Call) and 'additional_dependencies' in ast.unparse(n)
+             and 'plan_data' in ast.unparse(n)]
+    filt = [n.lineno for n in ast.walk(cdi.node) if isinstance(n, ast.GeneratorExp) and 'self.disable' in ast.unparse(n)]
+    if not reads or not filt:
+        raise AnalysisError('Item.create_dependency_items: planned-dependency read / disable filter not found')
+    (ctx.judge('R6', 'planned dependencies pass the disable filter', facts={'read_line': reads, 'filter_line': filt}) if max(reads) < min(filt) else
+     ctx.violation('R6', 'Item.create_dependency_items:plan-bypasses-disable', f'{cdi.module.relpath}:{max(reads)}',
+                   'the planned additional dependencies are added to the item list after the `disable` filter: the plan keeps a '
+                   'routine that the real run (where the inlined calls are in the caller and are filtered) drops'))
+
 
 MUTANTS = [
+    Mutant('planned-dependencies-overwritten', 'loki/transformations/dependency.py',
+           "        item.plan_data.setdefault('additional_dependencies', ())\n        item.plan_data['additional_dependencies'] += self._create_duplicate_items(",
+           "        item.plan_data['additional_dependencies'] = self._create_duplicate_items(", expect=('R5', 'overwritten')),
     Mutant('plan-ignores-output-dir', FW,
            "        build_args = kwargs.get('build_args', {})\n        sourcepath = self._get_file_path(item, build_args)\n        item.trafo_data",
            "        build_args = {}\n        sourcepath = self._get_file_path(item, build_args)\n        item.trafo_data",
